@@ -304,6 +304,32 @@ pub fn run(ctx: Ctx) -> ! {
         replay(&ctx, &world, &spawner, &scratch, &path);
     }
 
+    if let Ok(name) = std::env::var("C09_BENCH") {
+        for s in world.seeds.iter().filter(|s| s.name == name) {
+            for &e in s.entries.iter().take(2) {
+                let t = Instant::now();
+                let n = 2000;
+                for _ in 0..n {
+                    std::hint::black_box((world.cat[e].call)(&s.bytes, false));
+                }
+                eprintln!("{} {} len={} : {:.2} us/call (value+digest)", s.name, world.cat[e].name, s.bytes.len(), t.elapsed().as_secs_f64() * 1e6 / n as f64);
+                let mut b = s.bytes.clone();
+                let k = b.len() / 2;
+                b[k] = 0xff;
+                let t = Instant::now();
+                for _ in 0..n {
+                    std::hint::black_box((world.cat[e].call)(&b, false));
+                }
+                eprintln!("   faulted in the middle: {:.2} us/call  {:?}", t.elapsed().as_secs_f64() * 1e6 / n as f64, (world.cat[e].call)(&b, false).res);
+                let t = Instant::now();
+                for _ in 0..n {
+                    std::hint::black_box(pallas_traverse::MultiEraBlock::decode(&s.bytes).is_ok());
+                }
+                eprintln!("   raw MultiEraBlock::decode: {:.2} us/call", t.elapsed().as_secs_f64() * 1e6 / n as f64);
+            }
+        }
+        std::process::exit(0);
+    }
     if std::env::var("C09_STATS").is_ok() {
         let mut by: BTreeMap<String, Vec<usize>> = BTreeMap::new();
         for s in &world.seeds {
@@ -690,38 +716,40 @@ pub fn run(ctx: Ctx) -> ! {
 }
 
 fn thinning_text(t: &Tuning) -> String {
+    let common = "Splices: ordered pairs of the splice representatives of a family (all seeds when the family has at most `cap` of them, cap = 40, addr-text 12 quick / 24 thorough; otherwise the first seed of each distinct (length, first byte) class up to the cap); blocks cut out of chunk files are not spliced; cut points = starts and ends of all CBOR items up to nesting depth d (block 2; tx 3 quick / 4 thorough; header 3 quick / unbounded thorough; outputs and messages unbounded), every byte offset for addresses and address texts.";
     if t.thorough {
         format!(
-            "thorough: every offset of every seed up to {} bytes; larger seeds (genesis.block) at item-boundary offsets only (every head byte of every CBOR item, first/last payload byte of strings, break bytes). Splice cut depth: block 2, tx 4, others unbounded; chunk-file blocks are not spliced; families with more than {} seeds are spliced over representatives (first seed of each distinct (length, first byte) class, capped).",
+            "thorough: every seed; every offset of every seed up to {} bytes (i.e. all but genesis.block) gets truncation, 8 bit flips, deletion, duplication; the 28-value substitution alphabet at every offset of seeds <= {} bytes and at item-boundary offsets (every head byte of every CBOR item, first/last payload byte of every string, break bytes) of larger ones; genesis.block (648 KiB): all fault kinds at item-boundary offsets only. Accessor digest of returned values: every fault of seeds <= {} bytes, faults at item-boundary offsets of larger ledger seeds (every 16th for genesis.block), never for messages > {} bytes. {common}",
             faults::THOROUGH_FULL_LIMIT,
-            SPLICE_CAP
+            faults::THOROUGH_ALPHA_LIMIT,
+            faults::FULL_LIMIT,
+            faults::FULL_LIMIT
         )
     } else {
         format!(
-            "quick: every offset of every seed <= {} bytes (all txs <= 4 KiB, headers, outputs, addresses, messages <= 4 KiB); larger seeds at item-boundary offsets only, thinned to every k-th boundary offset by rank (k = {} for test_data blocks, {} for chunk-file blocks, 1 otherwise). Splice cut depth: block 2, tx 3, header 3, others unbounded; chunk-file blocks are not spliced; families with more than {} seeds are spliced over representatives.",
+            "quick: all .block/.tx/.header files, outputs, addresses, messages, and every {}th block (index % {} == 0) of each chunk file; every offset of seeds <= {} bytes with all fault kinds; a larger seed of n bytes at every k-th item-boundary offset by rank (k = max(1, n / {}); item-boundary offsets = every head byte of every CBOR item, first/last payload byte of every string, break bytes, first/last byte). {common}",
+            faults::QUICK_CHUNK_BLOCK_STRIDE,
+            faults::QUICK_CHUNK_BLOCK_STRIDE,
             faults::FULL_LIMIT,
-            faults::QUICK_STRIDE_BLOCK,
-            faults::QUICK_STRIDE_CHUNK_BLOCK,
-            SPLICE_CAP
+            faults::QUICK_STRIDE_UNIT
         )
     }
 }
 
-pub const SPLICE_CAP: usize = 40;
-
 /// Seeds of one family that are spliced pairwise: all of them when the family
 /// is small; otherwise the first seed of each distinct (length, first byte)
-/// class, at most SPLICE_CAP.
+/// class, at most the family's cap.
 fn splice_representatives(world: &World, members: &[usize]) -> Vec<usize> {
     let m: Vec<usize> = members.iter().copied().filter(|&i| world.tuning.splice_member(&world.seeds[i])).collect();
-    if m.len() <= SPLICE_CAP {
+    let cap = m.first().map(|&i| world.tuning.splice_cap(&world.seeds[i].family)).unwrap_or(0);
+    if m.len() <= cap {
         return m;
     }
     let mut seen = BTreeSet::new();
     let mut out = vec![];
     for i in m {
         let s = &world.seeds[i];
-        if seen.insert((s.bytes.len(), s.bytes.first().copied())) && out.len() < SPLICE_CAP {
+        if seen.insert((s.bytes.len(), s.bytes.first().copied())) && out.len() < cap {
             out.push(i);
         }
     }
